@@ -859,6 +859,20 @@ var readAllCapsStr = func() string {
 	return strings.Join(parts, ",")
 }()
 
+// logDefaultHandlers wraps the default handlers (obtained through the public getters) so that
+// their invocations appear in the event log; behaviour is unchanged.
+func logDefaultHandlers(c *websocket.Conn, log *evlog) {
+	dp := c.PingHandler()
+	c.SetPingHandler(func(s string) error { log.add("H:ping:" + hx([]byte(s))); return dp(s) })
+	dq := c.PongHandler()
+	c.SetPongHandler(func(s string) error { log.add("H:pong:" + hx([]byte(s))); return dq(s) })
+	dc := c.CloseHandler()
+	c.SetCloseHandler(func(code int, s string) error {
+		log.add(fmt.Sprintf("H:close:%d:%s", code, hx([]byte(s))))
+		return dc(code, s)
+	})
+}
+
 func runReaderScenario(seed int64, opt rOpts) *scenario {
 	r := rand.New(rand.NewSource(seed))
 	sc := &scenario{kind: "r", seed: seed}
